@@ -57,6 +57,21 @@ def run(ctx: Ctx, tier: str) -> Result:
         res.ok("C15.ONCE", {"popped context": "processed iff at its location, else pushed back"})
     else:
         res.fail(Finding("C15.ONCE", pcb.qname, "<pop; process xor push back>", pcb.loc(), "a pending context is not `popped once, then processed if at its location, else pushed back` (pops %d, process %d, push back %d)" % (len(pops), len(procs), len(backs))))
+    # the thread's pending work is dropped only when there is none left
+    for f_ in [x for lst in worker.cls.methods.values() for x in lst]:
+        for c in t.calls_in(f_):
+            if not (isinstance(c.func, ast.Attribute) and c.func.attr == "clear" and any(k.name == "ThreadLocal" for tt in t.type_of(c.func.value, f_) if tt[0] == "inst"
+                                                                                          for k in [p.classes.get(tt[1])] if k is not None)):
+                continue
+            conds = [(norm(cnd), pol) for cnd, pol in paths.conditions(p, c, f_)]
+            recv = norm(c.func.value)
+            empty = [(cnd, pol) for cnd, pol in conds if (cnd in ("len(%s.value) == 0" % recv, "len(%s.get()) == 0" % recv, "not %s.value" % recv, "not %s.get()" % recv) and pol)
+                     or (cnd in ("%s.value" % recv, "%s.get()" % recv, "len(%s.value) > 0" % recv, "len(%s.value) != 0" % recv) and not pol)]
+            if empty:
+                res.ok("C15.ONCE", {"pending work cleared only when none is left": f_.loc(c)})
+            else:
+                res.fail(Finding("C15.ONCE", f_.qname, c, f_.loc(c), "the thread's pending contexts are discarded when `%s`, not only when none is left: spans and deferred "
+                                 "snapshots still open on that thread are never completed" % (" and ".join(("" if pol else "not ") + cnd for cnd, pol in conds) or "always")))
     # stack discipline: the pending contexts of a thread nest like its calls, so the end that is popped, the end a
     # non-matching context is put back to and the end new contexts are registered at must be the same end
     regs0 = [c for c in t.calls_in(worker) if isinstance(c.func, ast.Attribute) and c.func.attr in ("append", "appendleft", "insert")
@@ -183,6 +198,34 @@ def run(ctx: Ctx, tier: str) -> Result:
                 else:
                     res.ok("C15.ONCE", {"%s attached once per action" % cls_.name: f_.loc(c)})
     res.floor("deferred results attached", n_att, 2)
+
+    # only real callbacks are registered for later: a result without deferred work (None) is not queued
+    tcx = p.func("deep.processor.context.trigger_context.TriggerContext.__exit__")
+    apps_ = [c for c in t.calls_in(tcx) if isinstance(c.func, ast.Attribute) and c.func.attr == "append" and norm(c.func.value).endswith("callbacks")]
+    for c in apps_:
+        a0 = norm(c.args[0]) if c.args else ""
+        cs_ = [(norm(cnd), pol) for cnd, pol in paths.conditions(p, c, tcx)]
+        if ("%s is not None" % a0, True) in cs_ or ("%s is None" % a0, False) in cs_ or (a0, True) in cs_:
+            res.ok("C15.ONCE", {"callback queued only when there is one": tcx.loc(c)})
+        else:
+            res.fail(Finding("C15.ONCE", tcx.qname, c, tcx.loc(c), "the result of processing an action result is queued as a callback without the `is not None` test: a None "
+                             "entry makes the completion of the context fail, the callbacks behind it (span close, deferred snapshot) never run"))
+    res.floor("callback registrations in the trigger context", len(apps_), 1)
+    # a snapshot is deferred exactly for the capture stages
+    isd = p.func("deep.processor.context.snapshot_action.SnapshotActionContext._is_deferred")
+    dtb = Table(ctx, isd)
+    stg = [k for k in dtb.vars.enums if "stage" in k.lower()]
+    if len(stg) == 1:
+        SG = stg[0]
+        drv = Vars()
+        for v_ in ("line_capture", "method_capture", "line_start", "method_start", "line_end", "method_end", None):
+            drv.enum(SG, v_)
+
+        def dref(w):
+            return w.enum[SG] in ("line_capture", "method_capture")
+        table_rule(res, "C15.TABLE", dtb, drv, dref, "snapshot deferred iff stage is line_capture or method_capture")
+    else:
+        res.fail(Finding("C15.TABLE", isd.qname, "<stage>", isd.loc(), "_is_deferred does not decide on the configured stage"))
 
     # ---------------- TABLE
     al = cc.lookup("at_location")
